@@ -71,6 +71,9 @@ func coqCase(h History, nm names, failed bool, reads []read) string {
 	}
 	var rs []string
 	for _, rd := range reads {
+		if rd.Q == "" {
+			continue // checked by the oracle only (Go row hydration, listings)
+		}
 		rs = append(rs, fmt.Sprintf("(%s, %s)", rd.Q, rd.Cell))
 	}
 	return fmt.Sprintf("{| c_logs := [%s];\n   c_err := %s;\n   c_reads := [%s] |}", strings.Join(ls, ";\n     "), vx.CoqBool(failed),
